@@ -456,7 +456,9 @@ def sym_process_target(vc):
                             check(it, 'extra-row-carries-the-key-under-the-target-field-names' + tag, z3.Not(_b(isfalse)))
                     cover(it, 'usage-iter-reachable' + tag)
                 it.loops['process_target#L1'] = LoopSpec(at_start=at_start, at_end=at_end)
-                it.loops['process_target#L2'] = LoopSpec(at_start=lambda it, env, e: e, at_end=u_end)
+                if mode == 'full-outer':
+                    # (the loop over the unused source keys exists in this mode only)
+                    it.loops['process_target#L2'] = LoopSpec(at_start=lambda it, env, e: e, at_end=u_end)
                 it.path.info['allowed_exc'] = {'KeyError': z3.BoolVal(True)}
                 it.run_generator(it.call(process_target, [r]))
                 evs = it.path.events
